@@ -635,8 +635,11 @@ def check_parallel(ck, scenarios):
         trace_oracle(ck, inp, sc, trace, sudo, ending, sc['num_cores'])
         if sc['path'] == 'interrupt' and ending != 'interrupt':
             ck.count('parallel:interrupt-after-all-work')
-        # ---- model: the observed global order of the workers' events and where the interrupt fell
-        body = [t for t in trace if t['t'] in ('start', 'stop', 'kill')]
+        # ---- model: the observed global order of the workers' own events (starts, natural ends) and
+        # the point where the interrupt fell.  A process whose thread was already registered when
+        # the scheduler began to stop may still start (and is then killed); one may end by itself
+        # just before its kill.  Both are worker events; the kills and the ends they cause are the
+        # scheduler's reaction, which the model computes.
         interrupted = ending == 'interrupt'
         p = None
         if interrupted:
@@ -645,11 +648,17 @@ def check_parallel(ck, scenarios):
                 if t['t'] in ('restore', 'kill') or (t['t'] == 'stop' and t.get('how') == 'killed'):
                     break
                 p += 1
-        g = [{'t': t['t'], 'i': t['i']} for t in body]
-        op = {'op': 'c20.par_session', 'profiling': False, 'report': sc['report'], 'events': g[:p] if interrupted else g,
+        own = [{'t': t['t'], 'i': t['i']} for t in trace
+               if t['t'] == 'start' or (t['t'] == 'stop' and t.get('how') != 'killed')]
+        if interrupted:
+            ri = max(i for i, t in enumerate(trace) if t['t'] == 'restore') if any(
+                t['t'] == 'restore' for t in trace) else len(trace)
+            own = [{'t': t['t'], 'i': t['i']} for t in trace[:ri]
+                   if t['t'] == 'start' or (t['t'] == 'stop' and t.get('how') != 'killed')]
+        op = {'op': 'c20.par_session', 'profiling': False, 'report': sc['report'], 'events': own,
               'ending': ending, 'pinned': False}
         if interrupted:
-            op['interrupt_at'] = p
+            op['interrupt_at'] = len(own)
         ops.append(op)
         recs.append((inp, canon_abort([dict((k, v) for k, v in t.items() if k != 'how') for t in trace], p), ending, p))
         ck.case(nontrivial_key=('par', json.dumps(sc, sort_keys=True)),
